@@ -6,6 +6,8 @@ single-point corruption) is fed to both ResponseData types: CBMC decides that th
 (accepted-and-preserved / rejected / ...) coincide.  Variables are covered per option set by C04
 against the same oracle.  Extern enums and the serde path are outside.
 """
+import json
+import vp_common as vc
 import krun
 import abstract_common as AC
 
@@ -26,3 +28,18 @@ def main():
                      'option pairs: normalization none vs rust; default vs (extra derives, pub(crate), custom_scalars_module)',
                      'payload shapes and operations as in C01 / C03'],
         jobs=6, pre=lambda out: AC.part(PROP, out, with_render=False))
+
+
+def replay(path):
+    def other(p):
+        import consumer
+        import abstract_common as AC
+        C = consumer.Consumer(vc.scratch(PROP + 'r'))
+        if p.get('kind') == 'enum-literals':
+            import native
+            ok, desc, _ = AC.confirm_enum_literals(native.ReplayTool(vc.scratch(PROP + 'e')), p['model'])
+        else:
+            ok, desc, _ = AC.confirm(C, p['model'], other_variant=p['model'].get('fragments_other_variant', False))
+        print(desc)
+        return 1 if ok is False else 0
+    return krun.replay_generic(PROP, build, lambda v: v == 'Ok', path, other=other)
